@@ -8,7 +8,8 @@ assert subprocess.run(["git", "-C", "/repo", "status", "--porcelain", "--untrack
 subprocess.run(["git", "-C", "/repo", "apply", patch], check=True)
 try:
     for c in checks:
-        p = subprocess.run(["/venv/bin/python", "/verif/harness/check.py", c, "--tier", "quick"], capture_output=True, text=True, cwd="/verif")
+        env = dict(os.environ, VERIF_EVIDENCE_DIR="/tmp/verif_seed_evidence")     # never overwrite committed evidence
+        p = subprocess.run(["/venv/bin/python", "/verif/harness/check.py", c, "--tier", "quick"], capture_output=True, text=True, cwd="/verif", env=env)
         lines = [l for l in p.stdout.splitlines() if l.startswith("VIOLATION") or l.startswith(c + " quick")]
         print("seed %s / check %s: exit %d" % (seed, c, p.returncode))
         for l in lines[:4]:
